@@ -55,6 +55,8 @@ impl tb::MapAuth<tb::Authorized, CoinsAuth> for MapT {
 pub struct RealTx {
     pub txid: [u8; 32],
     pub auth: Result<[u8; 32], String>,
+    /// txid of the same bytes parsed through a short-read reader.
+    pub chunked_txid: Result<[u8; 32], String>,
     data: TransactionData<SigAuth>,
     parts: TxDigests<blake2b_simd::Hash>,
 }
@@ -68,6 +70,9 @@ pub fn load(bytes: &[u8], ext_branch: u32, coins: &[Coin]) -> Result<RealTx, Str
         return Err("trailing bytes".into());
     }
     let txid: [u8; 32] = *tx.txid().as_ref();
+    // the same bytes through a reader that serves at most 7 bytes per call (C03's scripted reader)
+    let chunked_txid = catch(|| crate::c03::real::read_tx_scripted(bytes, br, crate::c03::real::Answers::Chunk(7)).0.map(|t| *t.txid().as_ref()).map_err(|e| e.to_string()))
+        .unwrap_or_else(|p| Err(format!("panic: {p}")));
     let auth = catch(|| tx.auth_commitment()).map(|h| <[u8; 32]>::try_from(h.as_bytes()).unwrap()).map_err(|p| format!("auth_commitment panicked: {p}"));
     let ca = CoinsAuth {
         amounts: coins.iter().map(|c| Zatoshis::from_nonnegative_i64(c.value).map_err(|e| format!("coin value: {e:?}"))).collect::<Result<_, _>>()?,
@@ -75,7 +80,7 @@ pub fn load(bytes: &[u8], ext_branch: u32, coins: &[Coin]) -> Result<RealTx, Str
     };
     let data = tx.into_data().map_authorization::<SigAuth>(MapT(ca), (), ());
     let parts = catch(|| data.digest(TxIdDigester)).map_err(|p| format!("digest(TxIdDigester) panicked: {p}"))?;
-    Ok(RealTx { txid, auth, data, parts })
+    Ok(RealTx { txid, auth, chunked_txid, data, parts })
 }
 
 impl RealTx {
